@@ -351,6 +351,9 @@ func decryptLegacy(priv *PrivateKey, ciphertext []byte, opts *DecrypterOpts) ([]
 	if err != nil {
 		return nil, ErrDecryption
 	}
+	if ciphertextLen < c3Start+sm3.Size {
+		return nil, errCiphertextTooShort
+	}
 
 	//B4, calculate t=KDF(x2||y2, klen)
 	var c2, c3 []byte
